@@ -19,6 +19,7 @@ import (
 
 	"github.com/nspcc-dev/neo-go/pkg/config"
 	"github.com/nspcc-dev/neo-go/pkg/core"
+	"github.com/nspcc-dev/neo-go/pkg/core/mpt"
 	"github.com/nspcc-dev/neo-go/pkg/core/storage"
 	"github.com/nspcc-dev/neo-go/pkg/core/transaction"
 	"github.com/nspcc-dev/neo-go/pkg/io"
@@ -58,24 +59,43 @@ func (t *c11T) done() {
 }
 
 type c11GCInput struct {
-	MTB uint32   `json:"mtb"`
-	Ops []string `json:"ops"` // "b" empty block, "t" block with a GAS transfer, "p" flush the write cache, "g" GC half of a Run tick + crash check
+	MTB     uint32   `json:"mtb"`
+	Echidna uint32   `json:"echidna,omitempty"` // height of the Echidna hard fork (and of the later ones); 0 = from genesis
+	GCP     uint32   `json:"gcp,omitempty"`     // GarbageCollectionPeriod, 0 = 1
+	Ops     []string `json:"ops"`               // "b" empty block, "t" block with a GAS transfer, "s" block in which the committee lowers MaxTraceableBlocks by one, "p" flush the write cache, "g" GC half of a Run tick + crash check
 }
 
-func c11ChainCfg(mtb uint32) func(*config.Blockchain) {
+func (in c11GCInput) gcp() uint32 {
+	if in.GCP == 0 {
+		return 1
+	}
+	return in.GCP
+}
+
+func c11ChainCfgIn(in c11GCInput) func(*config.Blockchain) {
 	return func(c *config.Blockchain) {
 		c.Hardforks = map[string]uint32{}
+		late := false
 		for _, hf := range config.Hardforks {
-			c.Hardforks[hf.String()] = 0
+			if hf == config.HFEchidna {
+				late = true
+			}
+			if late {
+				c.Hardforks[hf.String()] = in.Echidna
+			} else {
+				c.Hardforks[hf.String()] = 0
+			}
 		}
 		c.RemoveUntraceableBlocks = true
-		c.MaxTraceableBlocks = mtb
-		c.Genesis.MaxTraceableBlocks = mtb
-		c.MaxValidUntilBlockIncrement = 2
-		c.Genesis.MaxValidUntilBlockIncrement = 2
-		c.GarbageCollectionPeriod = 1
+		c.MaxTraceableBlocks = in.MTB
+		c.Genesis.MaxTraceableBlocks = in.MTB
+		c.MaxValidUntilBlockIncrement = 1
+		c.Genesis.MaxValidUntilBlockIncrement = 1
+		c.GarbageCollectionPeriod = in.gcp()
 	}
 }
+
+func c11ChainCfg(mtb uint32) func(*config.Blockchain) { return c11ChainCfgIn(c11GCInput{MTB: mtb}) }
 
 // c11CopyStore copies everything a MemoryStore holds (the "disk" after a crash).
 func c11CopyStore(src storage.Store) *storage.MemoryStore {
@@ -115,7 +135,7 @@ func c11RunGC(co *caseOut, in c11GCInput) {
 	var bc *core.Blockchain
 	var acc neotest.Signer
 	if p := catch(func() {
-		bc, acc = chain.NewSingleWithOptions(t, &chain.Options{Logger: zap.NewNop(), Store: bottom, BlockchainConfigHook: c11ChainCfg(in.MTB)})
+		bc, acc = chain.NewSingleWithOptions(t, &chain.Options{Logger: zap.NewNop(), Store: bottom, BlockchainConfigHook: c11ChainCfgIn(in)})
 	}); p != "" {
 		viol("chain construction failed: "+p, nil)
 		return
@@ -125,15 +145,70 @@ func c11RunGC(co *caseOut, in c11GCInput) {
 	oldPersisted := bc.VerifPersistedHeight()
 	var runs []string
 	collected, cached := false, false
+	// the model of GetMaxTraceableBlocks: the configuration value before Echidna, the value the Policy contract stores from
+	// Echidna on (the genesis setting at first, lowered by the committee later); never 0
+	policyID := int32(0)
+	for _, n := range bc.GetNatives() {
+		if n.Manifest.Name == "PolicyContract" {
+			policyID = n.ID
+		}
+	}
+	getterBad := false
+	mtbAt := []uint32{} // mtbAt[h]: the model's value while the chain stands at height h
+	noteMTB := func() {
+		h := bc.BlockHeight()
+		want := in.MTB
+		if h >= in.Echidna && h > 0 {
+			want = 0
+			bc.SeekStorage(policyID, []byte{23}, func(k, v []byte) bool {
+				if len(k) == 0 {
+					for i := len(v) - 1; i >= 0; i-- {
+						want = want<<8 | uint32(v[i])
+					}
+				}
+				return true
+			})
+		}
+		for uint32(len(mtbAt)) <= h {
+			mtbAt = append(mtbAt, want)
+		}
+		mtbAt[h] = want
+		if got := bc.GetMaxTraceableBlocks(); (got != want || got == 0) && !getterBad {
+			getterBad = true // reported once; the history goes on so that the consequences for the collector show as well
+			co.violation(kind, "GetMaxTraceableBlocks does not return the configured value before Echidna / the value the Policy contract holds from Echidna on",
+				in, map[string]any{"height": h, "echidna": in.Echidna, "got": got, "want": want})
+		}
+	}
+	noteMTB()
+	lowered := false
 	for oi, op := range in.Ops {
 		if failed {
 			break
 		}
 		switch op {
-		case "b", "t":
+		case "b", "t", "s":
 			if p := catch(func() {
 				if op == "b" {
 					e.AddNewBlock(t)
+					return
+				}
+				if op == "s" {
+					cur := bc.GetMaxTraceableBlocks()
+					if cur <= 2 || bc.BlockHeight()+1 < in.Echidna {
+						e.AddNewBlock(t)
+						return
+					}
+					w := io.NewBufBinWriter()
+					emit.AppCall(w.BinWriter, e.NativeHash(t, "PolicyContract"), "setMaxTraceableBlocks", callflag.All, int64(cur-1))
+					tx := e.PrepareInvocationNoSign(t, w.Bytes())
+					tx.Signers = []transaction.Signer{{Account: acc.ScriptHash(), Scopes: transaction.Global}}
+					neotest.AddNetworkFee(t, bc, tx, acc)
+					tx.SystemFee = 10_0000_0000
+					if err := acc.SignTx(bc.GetConfig().Magic, tx); err != nil {
+						panic(err)
+					}
+					e.AddNewBlock(t, tx)
+					lowered = true
 					return
 				}
 				w := io.NewBufBinWriter()
@@ -152,6 +227,9 @@ func c11RunGC(co *caseOut, in c11GCInput) {
 				e.AddNewBlock(t, tx)
 			}); p != "" {
 				viol(fmt.Sprintf("block rejected: %s [op %d]", p, oi), nil)
+			}
+			if !failed {
+				noteMTB()
 			}
 		case "p":
 			oldPersisted = bc.VerifPersistedHeight()
@@ -173,13 +251,16 @@ func c11RunGC(co *caseOut, in c11GCInput) {
 			if len(after) < len(before) {
 				collected = true
 			}
-			runs = append(runs, fmt.Sprintf("(%d, %d, %s, %s)", p, oldPersisted, c11CoqDump(ids, before), c11CoqDump(ids, after)))
+			// the collector is entitled to the window length in force at the current height (MaxTraceableBlocks only
+			// ever decreases); the recovered node below is entitled to the one in force at the persisted height
+			mtbH, mtbP := mtbAt[H], mtbAt[p]
+			runs = append(runs, fmt.Sprintf("(%d, %d, %d, %s, %s)", p, oldPersisted, mtbH, c11CoqDump(ids, before), c11CoqDump(ids, after)))
 			oldPersisted = p // the next tick of Run reads the persisted height again before its own flush
 			// the running node: every traceable state readable
 			sm := bc.GetStateModule()
 			lo := uint32(0)
-			if H+1 > in.MTB {
-				lo = H + 1 - in.MTB
+			if H+1 > mtbH {
+				lo = H + 1 - mtbH
 			}
 			for h := lo; h <= H && !failed; h++ {
 				sr, err := sm.GetStateRoot(h)
@@ -187,9 +268,25 @@ func c11RunGC(co *caseOut, in c11GCInput) {
 					viol(fmt.Sprintf("running node: no state root for traceable height %d (current %d)", h, H), map[string]any{"height": h})
 					break
 				}
-				if _, err := sm.FindStates(sr.Root, []byte{}, nil, 1<<20); err != nil {
+				kvs, err := sm.FindStates(sr.Root, []byte{}, nil, 1<<20)
+				if err != nil {
 					viol("the running node cannot read a state that is traceable for it after the garbage collection",
-						map[string]any{"height": h, "current": H, "persisted": p, "error": err.Error()})
+						map[string]any{"height": h, "current": H, "persisted": p, "mtb": mtbH, "echidna": in.Echidna, "error": err.Error()})
+					break
+				}
+				for i := 0; i < len(kvs) && i < 40; i += 13 {
+					v, e1 := sm.GetState(sr.Root, kvs[i].Key)
+					proof, e2 := sm.GetStateProof(sr.Root, kvs[i].Key)
+					ok := false
+					var pv []byte
+					if e2 == nil {
+						pv, ok = mpt.VerifyProof(sr.Root, kvs[i].Key, proof)
+					}
+					if e1 != nil || e2 != nil || !ok || string(v) != string(kvs[i].Value) || string(pv) != string(kvs[i].Value) {
+						viol("a key of a traceable state cannot be read or proved on the running node after the garbage collection",
+							map[string]any{"height": h, "key": hx(kvs[i].Key), "get_error": fmt.Sprint(e1), "proof_error": fmt.Sprint(e2)})
+						break
+					}
 				}
 			}
 			if failed {
@@ -200,7 +297,7 @@ func c11RunGC(co *caseOut, in c11GCInput) {
 			t2 := &c11T{}
 			var bc2 *core.Blockchain
 			if pp := catch(func() {
-				bc2, _ = chain.NewSingleWithOptions(t2, &chain.Options{Logger: zap.NewNop(), Store: disk, SkipRun: true, BlockchainConfigHook: c11ChainCfg(in.MTB)})
+				bc2, _ = chain.NewSingleWithOptions(t2, &chain.Options{Logger: zap.NewNop(), Store: disk, SkipRun: true, BlockchainConfigHook: c11ChainCfgIn(in)})
 			}); pp != "" {
 				viol("the node does not start on the persistent store as a crash after the garbage collection would leave it: "+pp,
 					map[string]any{"persisted": p, "current": H})
@@ -211,8 +308,8 @@ func c11RunGC(co *caseOut, in c11GCInput) {
 			}
 			d, _ := c11Dump(disk, true)
 			lo = 0
-			if p+1 > in.MTB {
-				lo = p + 1 - in.MTB
+			if p+1 > mtbP {
+				lo = p + 1 - mtbP
 			}
 			for h := lo; h <= p && !failed; h++ {
 				sr, err := bc2.GetStateModule().GetStateRoot(h)
@@ -222,12 +319,12 @@ func c11RunGC(co *caseOut, in c11GCInput) {
 				}
 				if w := c11WalkRoot(d, sr.Root, false); w.problem != "" {
 					viol("after a crash the recovered node cannot read a state that is traceable for it: the garbage collector removed a node it needs",
-						map[string]any{"height": h, "persisted": p, "height_in_memory_at_gc": H, "mtb": in.MTB, "problem": w.problem})
+						map[string]any{"height": h, "persisted": p, "height_in_memory_at_gc": H, "mtb_at_persisted": mtbP, "mtb_at_current": mtbH, "echidna": in.Echidna, "problem": w.problem})
 				}
 			}
 			// Reset on the recovered (non-running) node, where the node allows it (chain shorter than MaxTraceableBlocks):
 			// afterwards contract storage must be exactly what the state root of the target height commits to
-			if !failed && p >= 2 && p < in.MTB {
+			if !failed && p >= 2 && p < mtbP && !lowered {
 				target := p - 1
 				var rerr error
 				if pp := catch(func() { rerr = bc2.Reset(target) }); pp != "" || rerr != nil {
@@ -265,7 +362,13 @@ func c11RunGC(co *caseOut, in c11GCInput) {
 			t2.done()
 		}
 	}
-	tag := fmt.Sprintf("mtb%d", in.MTB)
+	tag := fmt.Sprintf("mtb%d/gcp%d", in.MTB, in.gcp())
+	if in.Echidna > 0 {
+		tag += "+echidna"
+	}
+	if lowered {
+		tag += "+lowered"
+	}
 	if cached {
 		tag += "+blocks-in-cache-at-gc"
 	}
@@ -273,10 +376,45 @@ func c11RunGC(co *caseOut, in c11GCInput) {
 		tag += "+collected"
 	}
 	co.add(kind, tag, cached && collected, in, map[string]any{"height": bc.BlockHeight(), "gc_runs": len(runs)},
-		fmt.Sprintf("CGcRuns %d %s", in.MTB, coqList(runs)))
+		fmt.Sprintf("CGcRuns %d %s", in.gcp(), coqList(runs)))
 }
 
 func c11GenGC(r *rng) c11GCInput {
+	switch r.intn(5) {
+	case 0, 1:
+		// the hard-fork boundary: MaxTraceableBlocks comes from the configuration before Echidna and from the Policy
+		// contract from Echidna on; a real GC tick at EVERY height around E, the one at E-1 crossing a period boundary
+		in := c11GCInput{MTB: uint32(2 + r.intn(3)), GCP: uint32(1 + r.intn(4))}
+		k := 2 + r.intn(3)
+		for uint32(k)*in.GCP+1 < in.MTB+3 {
+			k++
+		}
+		in.Echidna = uint32(k)*in.GCP + 1
+		for h := uint32(1); h <= in.Echidna+2+uint32(r.intn(3)); h++ {
+			in.Ops = append(in.Ops, pick(r, []string{"b", "t", "t"}))
+			if h+4 >= in.Echidna || r.chance(40) {
+				if r.chance(85) {
+					in.Ops = append(in.Ops, "p")
+				}
+				in.Ops = append(in.Ops, "g")
+			}
+		}
+		return in
+	case 2:
+		// the committee lowers MaxTraceableBlocks (it can only be lowered) after Echidna, GC ticks around it
+		in := c11GCInput{MTB: uint32(4 + r.intn(3)), GCP: uint32(1 + r.intn(2)), Echidna: uint32(r.intn(4))}
+		for h := 1; h <= int(in.MTB)+6+r.intn(4); h++ {
+			op := pick(r, []string{"b", "t", "t"})
+			if h > int(in.MTB)+1 && r.chance(30) {
+				op = "s"
+			}
+			in.Ops = append(in.Ops, op)
+			if h > int(in.MTB) {
+				in.Ops = append(in.Ops, "p", "g")
+			}
+		}
+		return in
+	}
 	in := c11GCInput{MTB: uint32(2 + r.intn(4))}
 	blk := func(n int) {
 		for i := 0; i < n; i++ {
@@ -310,8 +448,9 @@ func runC11GC(args []string) error {
 	cf, fs := parseCommon("c11gc", args)
 	fs.Parse(args)
 	co := newCaseOut(cf.out, "Harness.C11", "Z",
-		"neotest chains with RemoveUntraceableBlocks, MaxTraceableBlocks 2-5, GC period 1: MTB+2..MTB+4 blocks, then 1-3 rounds of flush / 0..MTB+2 blocks kept in the "+
-			"write cache / GC half of a Run tick / crash-recovery on a copy of the persistent store; every block changes the trie (GAS rewards, transfers); "+
+		"neotest chains with RemoveUntraceableBlocks, MaxTraceableBlocks 2-6; (a) GC period 1, all hard forks from genesis: MTB+2..MTB+4 blocks, then 1-3 rounds of flush / 0..MTB+2 blocks kept in the "+
+			"write cache / GC half of a Run tick / crash-recovery on a copy of the persistent store; (b) Echidna (MaxTraceableBlocks from the Policy contract) at E = k*period+1, period 1-4, a GC tick at every height from E-4 to E+2..4; "+
+			"(c) the committee lowering MaxTraceableBlocks after Echidna with a tick after every block; every block changes the trie (GAS rewards, transfers); "+
 			"non-trivial when blocks were in the write cache at a GC that removed entries; distinct by Coq term")
 	co.shard = 12
 	if cf.replay != "" {
